@@ -449,6 +449,21 @@ def mk_set(kinds, nbs, steps, maxc, minc, pad, cfgs=None, short=False, int_oob=T
             x = da.from_array(x0.copy(), chunks=lss)
             x[index] = vv
             got = x.compute(scheduler="sync")
+            if what == "numpy value":
+                # the assignment must not write into data other collections still refer to: an array derived from x BEFORE the
+                # assignment keeps its values, also when both are computed together and when x is computed a second time
+                import dask
+                src = x0.copy()
+                for ch in (lss, tuple((d,) for d in dims)):
+                    xa = da.from_array(src, chunks=ch)
+                    before = xa + 0
+                    xa[index] = vv
+                    r_after, r_before = dask.compute(xa, before, scheduler="sync")
+                    again = xa.compute(scheduler="sync")
+                    if not (r_before == x0).all() or not (src == x0).all():
+                        raise Violation(f"x[{index}] = v (chunks {ch}) changed data that existed before the assignment (block assigned in place)")
+                    if not (r_after == want).all() or not (again == want).all():
+                        raise Violation(f"x[{index}] = v (chunks {ch}): result differs between computing together / a second time and NumPy")
             if x.chunks != lss:
                 raise Violation(f"chunks changed from {lss} to {x.chunks} by x[{index}] = <{what} of shape {vshape}>")
             if got.shape != want.shape or not (got == want).all():
@@ -644,6 +659,8 @@ def obligations(tier):
         obs.append(mk_set(("s",), (2,), (-2,), 3, 0, pad))
         obs.append(mk_set(("s",), (3,), (2,), 3, 1, pad, cfgs=[F]))
         obs.append(mk_set(("s",), (3,), (-2,), 3, 1, pad, cfgs=[F]))
+        obs.append(mk_set(("s",), (2,), (3,), 3, 0, pad, cfgs=[F]))
+        obs.append(mk_set(("s",), (3,), (-3,), 2, 1, pad, cfgs=[F]))
         obs.append(mk_set(("a",), (3,), (-2,), 3, 0, pad, cfgs=[F]))
         obs.append(mk_set(("b",), (3,), (-1,), 3, 0, pad))
         obs.append(mk_set((":",), (3,), (-1,), 3, 0, pad))
